@@ -10,6 +10,10 @@ destruction, flushes in any order — `Reachable`; those that need the documente
 returned by a collector call is flushed before the next call / before the state dies) quantify over all
 operation lists satisfying `Flushed` — `FlushedReachable`.
 
+Also here: `c15_model_is_the_loop` (the closed forms the proofs use are the awaiter-by-awaiter loops of the code, which is
+what the driver runs against the headers) and the publication discipline of `awaiter::subscribe`
+(`c15_subscribe_no_touch_after_publish`, with the `decide` witness `c15_asis_subscribe_uaf` for the pinned code).
+
 Ghost vocabulary: `got l` = what listener `l` has observed so far, in order; `expect l` = for a coroutine listener
 the outcomes issued *while it was waiting in the chain* (`val v` appended by `emit v`, `canceled` by the state
 destructor / by awaiting a dead emitter) — `c15_expect_emit` / `c15_expect_disconnect` pin that meaning down;
